@@ -1,11 +1,10 @@
 // C27 correspondence harness: drives the real felix/config.Config (New, UpdateFrom,
 // UpdateFromConfigUpdate, Params) and evaluates the property's own oracle on the real code.
 //
-// Go map iteration order is the one input the harness cannot put into an op line. The ops list each
-// source's keys in an order; where that order matters (several keys of one source that differ only in
-// case) the harness re-runs the real update from a snapshot (Config.Copy) until the real code's own log
-// ("Parsing value for …") shows that the key listed last was processed last, so the output is a
-// function of the op line.
+// Go map iteration order is the one input the harness cannot put into an op line.  resolve() sorts
+// each source's keys, so the result must not depend on it; the oracle checks that on the real code by
+// re-running with shuffled map insertion and, for keys of one source that differ only in case, by
+// watching the real code's own log ("Parsing value for …") until each variant has been seen last.
 package main
 
 import (
@@ -152,7 +151,6 @@ type state struct {
 	cfg      *config.Config
 	decls    []string // lower-case names in declaration order
 	declared map[string]bool
-	poisoned bool
 	srcs     map[config.Source][]kv // what the real config currently holds, as ordered lists
 }
 
@@ -308,36 +306,17 @@ func configUpdateOf(srcs map[config.Source][]kv) *proto.ConfigUpdate {
 	return cu
 }
 
-const maxTries = 20000
+const maxTries = 4000
 
-// runOrdered runs `do` on copies of s.cfg until the real code processed every case-variant group of
-// `after` (the sources as they will be after the update) in the listed order, or failed.
+// runOrdered runs the update on the real Config.  (Before commit f0ff295 resolve() walked each
+// source's Go map in map order and this function had to search for an execution in the listed
+// order; resolve() now sorts the keys, so one run is THE result.  If the sort is ever lost, the
+// results become run-dependent: the correspondence then disagrees and the case-variant-order
+// oracle below reports it.)
 func (s *state) runOrdered(h *rt.H, after map[config.Source][]kv, do func(c *config.Config) error) (c *config.Config, err error, ok bool) {
-	gs := groupsOf(after)
-	snapshot := s.cfg.Copy()
-	for try := 0; try < maxTries; try++ {
-		c = snapshot.Copy()
-		hook.msgs = hook.msgs[:0]
-		err = do(c)
-		if err != nil {
-			return c, err, true
-		}
-		good := true
-		for _, g := range gs {
-			lp := lastProcessed(g, hook.msgs)
-			if lp != -1 && lp != len(g.members)-1 {
-				good = false
-				break
-			}
-		}
-		if good {
-			if try > 0 {
-				h.Count("order-retries>0")
-			}
-			return c, nil, true
-		}
-	}
-	return c, err, false
+	hook.msgs = hook.msgs[:0]
+	err = do(s.cfg)
+	return s.cfg, err, true
 }
 
 func cloneSrcs(m map[config.Source][]kv) map[config.Source][]kv {
@@ -376,7 +355,7 @@ func exec(h *rt.H, s *state, op string) string {
 			return "bad-op"
 		}
 		s.cfg = config.New()
-		s.decls, s.declared, s.poisoned = nil, map[string]bool{}, false
+		s.decls, s.declared = nil, map[string]bool{}
 		s.srcs = map[config.Source][]kv{}
 		return "ok"
 	case "srcs":
@@ -458,19 +437,13 @@ func exec(h *rt.H, s *state, op string) string {
 		if !reached {
 			return "order-unreachable"
 		}
-		wasPoisoned := s.poisoned
 		s.cfg, s.srcs = c, after
 		if err != nil && c.Err == nil {
 			return "err-not-stored"
 		}
 		if err != nil {
-			s.poisoned = true
 			h.Count("upd:err")
 			return "err"
-		}
-		s.poisoned = false
-		if wasPoisoned {
-			return "changed=?"
 		}
 		if changed {
 			return "changed=1"
@@ -516,16 +489,10 @@ func exec(h *rt.H, s *state, op string) string {
 		if !reached {
 			return "order-unreachable"
 		}
-		wasPoisoned := s.poisoned
 		s.cfg, s.srcs = c, after
 		if err != nil {
-			s.poisoned = true
 			h.Count("all:err")
 			return "err"
-		}
-		s.poisoned = false
-		if wasPoisoned {
-			return "changed:?"
 		}
 		return "changed:" + strings.Join(changedFieldNames(before, c), ",")
 	case "get":
@@ -537,9 +504,6 @@ func exec(h *rt.H, s *state, op string) string {
 			e = "1"
 		}
 		oracle(h, s)
-		if s.poisoned {
-			return "err=" + e + " poisoned"
-		}
 		var fs, rs []string
 		for _, l := range s.decls {
 			name := config.Params()[l].GetMetadata().Name
@@ -581,7 +545,12 @@ func freshResolve(srcs map[config.Source][]kv) (*config.Config, bool) {
 	return c, err != nil || c.Err != nil
 }
 
-func ignoredLocal(md *config.Metadata, src config.Source) bool { return md.Local && !src.Local() }
+// The property text: "datastore values for local-only parameters never affect the result".  The three
+// datastore sources are named here, NOT taken from Source.Local(), so that a wrong Local() is caught.
+func ignoredLocal(md *config.Metadata, src config.Source) bool {
+	datastore := src == config.DatastoreGlobal || src == config.DatastorePerSelector || src == config.DatastorePerHost
+	return md.Local && datastore
+}
 
 // deciding returns, for a known parameter, the highest-priority source holding a key for it that is
 // not a datastore value of a local-only parameter, and that source's keys for it.
@@ -778,7 +747,7 @@ func oracle(h *rt.H, s *state) {
 		for _, m := range g.members {
 			distinctRaw[m.v] = true
 		}
-		for try := 0; try < 4000 && len(seen) < len(distinctRaw); try++ {
+		for try := 0; try < 96 && len(seen) < len(distinctRaw); try++ {
 			c2, e2 := freshResolve(srcs)
 			if e2 {
 				break
@@ -930,6 +899,8 @@ var unknownKeys = []string{"VerifUnknownA", "verifunknowna", "VERIFUNKNOWNA", "V
 func genKVs(h *rt.H, ps []int, allowVariants bool, allowEmpty bool) []string {
 	var out []string
 	used := map[string]bool{}
+	variantDone := false       // usually one variant group per source;
+	multi := h.Intn(10) == 0 // several in one source exercise the re-seat path of runOrdered
 	add := func(k, v, t string) {
 		if used[k] {
 			return
@@ -949,7 +920,8 @@ func genKVs(h *rt.H, ps []int, allowVariants bool, allowEmpty bool) []string {
 		}
 		h.Count("val:" + cat)
 		add(caseVariant(h, pi.name), v, parseTok(p, v))
-		if allowVariants && h.Intn(100) < 18 {
+		if allowVariants && (!variantDone || multi) && h.Intn(100) < 30 {
+			variantDone = true
 			// a second (sometimes third) key of the same source differing only in case, other value
 			for n := 1 + h.Intn(2); n > 0; n-- {
 				v2, _ := genValue(h, pi)
